@@ -99,6 +99,8 @@ CONFIGS = [
     (["-t", "ext4", "-b", "2048", "-g", "1024", "-O", "64bit,^metadata_csum", "-N", "512"], "20M"),
     (["-t", "ext3", "-b", "1024"], "20M"),
     (["-t", "ext4", "-b", "1024", "-g", "256", "-O", "meta_bg,^resize_inode,64bit", "-N", "256"], "13M"),
+    # sparse_super2 without a resize inode, many groups, files everywhere: a shrink makes another group the last-group backup location
+    (["-t", "ext4", "-b", "1024", "-g", "1024", "-O", "sparse_super2,^resize_inode,^has_journal", "-N", "512"], "20M"),
 ]
 
 
@@ -129,7 +131,17 @@ def tool_case(src, mexe, idx, seed, tier):
     open(datafile, "wb").write(bytes(r.getrandbits(8) for _ in range(30000)))
     cmds = ["mkdir d", "write %s d/f1" % datafile, "write %s f2" % datafile, "symlink sl /d/f1", "mkdir d/e"] + \
            ["write /dev/null d/e/n%d" % i for i in range(r.randint(3, 30))]
+    wide = "sparse_super2,^resize_inode" in " ".join(opts)
+    if wide:
+        # one file per group start: whatever block a new backup needs there already belongs to somebody
+        big = os.path.join(WORK, "big%d" % idx)
+        open(big, "wb").write(bytes(r.getrandbits(8) for _ in range(4096)) * 60)
+        cmds += ["write %s w%02d" % (big, i) for i in range(72)] + ["rm w%02d" % i for i in range(72) if i % 4 != 1]
     step([T("debugfs/debugfs"), "-w", "-f", "-", img], inp=("\n".join(cmds) + "\n").encode())
+    try:
+        tree_start = tree(Fs(img))
+    except FormatError as ex:
+        return {"opts": opts, "steps": steps}, ["independent reader rejects the populated image: %s" % ex], 0
     menu = [
         [T("misc/tune2fs"), "-U", "01234567-89ab-cdef-0123-456789abcdef", img],
         [T("misc/tune2fs"), "-O", "^has_journal", img],
@@ -145,6 +157,8 @@ def tool_case(src, mexe, idx, seed, tier):
     plan = [r.choice(menu) for _ in range(r.randint(0, 3))]
     if idx % 3 == 1:
         plan.append("nudge")
+    if wide:
+        plan = ["shrink"] + plan[:1]
     for m in plan:
         if m == "nudge":
             # a resize that keeps the number of groups: the backups must still be brought up to date
@@ -162,6 +176,9 @@ def tool_case(src, mexe, idx, seed, tier):
             step([T("resize/resize2fs"), img, "%dK" % newk])
         elif m == "shrink":
             newk = int(size[:-1]) * 1024 * 3 // 4
+            if wide:
+                fsn = Fs(img)
+                newk = r.randint(6, fsn.groups_count - 2) * fsn.blocks_per_group + r.choice([1, 1, 300, 700])
             step([T("e2fsck/e2fsck"), "-fy", img])
             step([T("resize/resize2fs"), img, "%dK" % newk])
         else:
@@ -175,6 +192,13 @@ def tool_case(src, mexe, idx, seed, tier):
     except FormatError as ex:
         return recipe, ["independent reader rejects the image: %s" % ex], 0
     problems += check_backups(fs, groups, py_crc32c())
+    # the steps themselves must leave a clean filesystem with the same files (a backup written over somebody's block shows here)
+    rcn, outn = e2v.sh([T("e2fsck/e2fsck"), "-fn", img], env=env, timeout=300)
+    if rcn != 0:
+        problems.append("e2fsck -fn exits %d after the steps: %s" % (rcn, " | ".join(l for l in outn.split("\n") if "?" in l or "differences" in l or "claimed" in l)[:300]))
+    if tree0 != tree_start:
+        diff = sorted(p for p in set(tree0) | set(tree_start) if tree0.get(p) != tree_start.get(p))
+        problems.append("files differ from those present before the steps: %s" % diff[:4])
     # destroy the primary superblock and descriptors, restore from each backup
     locs = [(g, sblk) for (g, hs, sblk, old, new, used) in groups if g > 0 and hs]
     tries = 0
@@ -273,7 +297,7 @@ def run(res, replay=None):
     res.cov["evaluations"] += rows
     res.sample({"sweep_config": cfgs[3], "columns": "group has_super super_blk old_desc_blk new_desc_blk used_blks", "first_rows": hout[:4]})
     # ---- B. tools
-    n = 8 if tier == "quick" else 160
+    n = 18 if tier == "quick" else 180
     with concurrent.futures.ThreadPoolExecutor(8) as ex:
         outs = list(ex.map(lambda i: tool_case(src, mexe, i, seed, tier), range(n)))
     bad = []
